@@ -332,6 +332,15 @@ func (i *interpreter) symBinop(op token.Token, t types.Type, x, y value) value {
 		if i.truth(normBool(c.Eq(b, c.BV(0, w)))) {
 			panic(targetPanic{i.runtimeErr("integer divide by zero")})
 		}
+		// division by a constant (not a power of two): quotient and remainder as auxiliary
+		// variables defined by x = q*c + r, instead of a division circuit
+		if b.IsConst() && !a.IsConst() && w >= 32 && b.Val&(b.Val-1) != 0 && !(signed && b.SignedVal() == -1) && i.path != nil && i.opts.Replay == nil {
+			q, r := i.divmodConst(a, b.Val, signed)
+			if op == token.QUO {
+				return norm(t, q)
+			}
+			return norm(t, r)
+		}
 		var o smt.Op
 		switch {
 		case op == token.QUO && signed:
